@@ -64,6 +64,15 @@ func checkC08(p *Prog, r *Report) {
 				okPath = true
 			}
 		})
+		// and the parameters through (*url.URL).Query(), which decodes them and
+		// skips pairs it cannot decode
+		okQuery := false
+		eachInstr(ns, func(ins ssa.Instruction) {
+			if c, ok := ins.(*ssa.Call); ok && c.Common().StaticCallee() != nil && fullName(c.Common().StaticCallee()) == "net/url.(*URL).Query" && c.Common().Args[0] == ssa.Value(ns.Params[0]) {
+				okQuery = true
+			}
+		})
+		r.decide(okQuery, "C08.path-decoding", "NewSimpleURL:parameters-from-Query", p.pos(ns.Pos()), "parameters are read with (*url.URL).Query()", "the query parameters are not read with (*url.URL).Query(): a stricter or differently decoding reader refuses or misreads text that String() produces (e.g. the fields parameter of a type without fields, see the known finding)")
 		r.decide(okPath && n == 1, "C08.path-decoding", "NewSimpleURL:fragments-from-decoded-path", p.pos(ns.Pos()), "fragments are cut from url.URL.Path (decoded)", "the path fragments are not cut from the decoded path (url.URL.Path): String() escapes them with PathEscape, so an ID that needs escaping is escaped twice and does not parse back")
 	}
 	oa2 := &orderAnalysis{p: p, r: r, tainted: map[*ssa.Function]bool{}, allowErrExit: true, mapsOnly: true, rule: "R7.order-insensitive-reader"}
@@ -1046,6 +1055,28 @@ func checkC08FieldsAccepted(p *Prog, r *Report) {
 				}
 			}
 			return ""
+		}
+		// a branch taken before this iteration has stored its own entry decides
+		// whether the parameter is honoured at all (rejected, skipped or kept): its
+		// condition must not read what other parameters left behind
+		for b := range ld.blocks {
+			ifi, ok := b.Instrs[len(b.Instrs)-1].(*ssa.If)
+			if !ok || b == ld.header {
+				continue
+			}
+			afterOwn := false
+			for _, o := range own {
+				if o.b.Dominates(b) {
+					afterOwn = true
+				}
+			}
+			if afterOwn {
+				continue
+			}
+			if w := pure(ifi.Cond, b, map[ssa.Value]bool{}); w != "" {
+				n++
+				r.bad("C08.fields-accepted", "NewParams:branch:"+p.describe(ifi), p.pos(ifi.Pos()), "whether a fields[T] parameter is honoured depends on "+w+": String() prints fields[T] for every selected type but not the parameter that put it there, so parsing its own output can drop or refuse the selection")
+			}
 		}
 		for b := range region {
 			ret, ok := b.Instrs[len(b.Instrs)-1].(*ssa.Return)
